@@ -736,6 +736,24 @@ def gen_classic(rng, tier, seed):
                 continue
             ops.append(['connect_twice', a, b])
             links.append((a, b))
+        elif r < 0.50:
+            # the two devices page each other at (nearly) the same time: an incoming connection from the very peer an outgoing
+            # one is pending to. One link must come of it, and a caller that is handed a connection is handed that one.
+            a, b = rng.sample(range(n), 2)
+            if (a, b) in links or (b, a) in links:
+                continue
+            ops.append(['cross_page', a, b, rng.choice([0, 0, 0.0005, 0.002, 0.02])])
+            links.append((a, b))
+        elif r < 0.51:
+            # a set-up that fails (the paged host asks for the central role, the pager does not allow the switch), followed by
+            # an ordinary connect between the same two devices in either direction
+            a, b = rng.sample(range(n), 2)
+            if (a, b) in links or (b, a) in links:
+                continue
+            ops.append(['refused', a, b])
+            x, y = rng.choice([(a, b), (b, a)])
+            ops.append(['connect', x, y])
+            links.append((x, y))
         elif r < 0.52 and links:
             # the same two devices additionally connect over LE (central with its public address): two links between one pair
             ops.append(['dual', list(rng.choice(links)), rng.choice([1, 2]), rng.choice([0, 1, 40])])
@@ -894,6 +912,67 @@ def run_classic(case):
                     sim.violation_once('pevent', f'peripheral-connection-event:classic:{kind}:count={len(pev)}', f'N{b} saw {[(str(x.peer_address), x.handle) for x in cx.conn_events[b]]}')
                     break
                 cx.links[(a, b)] = [conn, pev[0]]
+                established += 1
+            elif kind == 'refused':
+                _, a, b = op
+                hci = cx.hci
+
+                async def accept_as_central():
+                    try:
+                        await world[b].device.accept(role=hci.Role.CENTRAL, timeout=5.0)
+                    except Exception:
+                        pass
+                ta = sim.loop.create_task(accept_as_central())
+                sim.loop.settle(vt_budget=0.001)
+                sim.run(world[a].host.send_command(hci.HCI_Create_Connection_Command(
+                    bd_addr=world[b].device.public_address, packet_type=0xCC18, page_scan_repetition_mode=2, reserved=0, clock_offset=0, allow_role_switch=0)), 10.0)
+                sim.loop.drive(lambda: ta.done(), vt_budget=10.0)
+                sim.loop.settle(vt_budget=1.0)
+                sim.loop.advance(0.01)
+                if any(bytes(c.peer_address) == bytes(world[b].device.public_address) for c in world[a].device.connections.values()):
+                    raise HarnessError('the refused set-up produced a connection')
+                sim.probe('classic_set_up_refused_then_connect')
+            elif kind == 'cross_page':
+                _, a, b, stagger = op
+                for ev in cx.conn_events:
+                    ev.clear()
+                pa, pb = world[a].device.public_address, world[b].device.public_address
+
+                async def later_connect():
+                    await asyncio.sleep(stagger)
+                    return await world[b].device.connect(pa, transport=0, timeout=20.0)
+                ts = [sim.loop.create_task(world[a].device.connect(pb, transport=0, timeout=20.0)), sim.loop.create_task(later_connect())]
+                st = sim.loop.drive(lambda: all(t.done() for t in ts), vt_budget=60.0)
+                sim.probe('two_devices_page_each_other')
+                if st != 'done':
+                    sim.violation_once('connect', 'connect-hang:classic:cross_page', describe_task(next(t for t in ts if not t.done())))
+                    for t in ts:
+                        t.cancel()
+                    break
+                sim.loop.settle(vt_budget=1.0)
+                sim.loop.advance(0.01)
+                ca = [c for c in world[a].device.connections.values() if c.transport == 0 and bytes(c.peer_address) == bytes(pb)]
+                cb = [c for c in world[b].device.connections.values() if c.transport == 0 and bytes(c.peer_address) == bytes(pa)]
+                ea = [c for c in cx.conn_events[a] if bytes(c.peer_address) == bytes(pb)]
+                eb = [c for c in cx.conn_events[b] if bytes(c.peer_address) == bytes(pa)]
+                if len(ca) != 1 or len(cb) != 1 or len(ea) != 1 or len(eb) != 1:
+                    sim.violation_once('crosspage', f'cross-page:links={min(len(ca), 2)}/{min(len(cb), 2)}:events={min(len(ea), 2)}/{min(len(eb), 2)}',
+                                       f'N{a} holds {[hex(c.handle) for c in ca]} (events {len(ea)}), N{b} holds {[hex(c.handle) for c in cb]} (events {len(eb)}); '
+                                       f'callers: {[repr(t.exception()) if t.cancelled() or t.exception() else hex(t.result().handle) for t in ts]}')
+                    break
+                bad = False
+                for t, mine, nm in ((ts[0], ca[0], a), (ts[1], cb[0], b)):
+                    if not t.cancelled() and t.exception() is None and t.result() is not mine:
+                        sim.violation_once('wrongconn', 'connect-returned-wrong-connection:classic:cross_page', f'connect() on N{nm} returned handle {t.result().handle:#x}, the link is {mine.handle:#x}')
+                        bad = True
+                for nd, c in ((a, ca[0]), (b, cb[0])):
+                    if world[nd].controller.find_connection_by_handle(c.handle) is None:
+                        sim.violation_once('deadhandle', 'cross-page:handle-not-live-in-controller', f'N{nd} reports handle {c.handle:#x}, its controller has no such connection')
+                        bad = True
+                if bad:
+                    break
+                # (which role each Device reports is not compared: the property does not state it)
+                cx.links[(a, b)] = [ca[0], cb[0]]
                 established += 1
             elif kind == 'send':
                 _, (a, b), side, count, size = op
